@@ -88,6 +88,13 @@ def run_native(contract, sname, values, fn=None):
         code, _ = _compile(e)
         raise_when[lab] = (excs, bool(eval(code, ns)))
     reach = _reachable(list(args) + list(kwargs.values())) if contract.fresh_result_ else set()
+    frame_pre = None
+    if contract.modifies_ is not None:
+        try:
+            frame_allowed = _frame_allowed(contract.modifies_, ns)
+            frame_pre = _frame_snapshot(list(args) + list(kwargs.values()))
+        except Exception as e:
+            out.error = f"frame not evaluable natively: {type(e).__name__}: {e}"
     try:
         res = real(*args, **kwargs)
         if isinstance(res, types.GeneratorType):
@@ -115,11 +122,13 @@ def run_native(contract, sname, values, fn=None):
             if not ok:
                 out.failed.append((lab, f"result={_short(out.result)}"))
         for lab, e in contract.fresh_result_:
+            each = e.startswith("each:")
+            e = e[5:] if each else e
             code, _ = _compile(e)
             out.checked += 1
             try:
                 obj = eval(code, {**ns, "result": out.result})
-                if id(obj) in reach:
+                if any(id(x) in reach for x in (list(obj) if each else [obj])):
                     out.failed.append((lab, f"{e} is an object reachable from the arguments (shared mutable state)"))
             except Exception as ex:
                 out.failed.append((lab, f"clause raised {type(ex).__name__}: {ex}"))
@@ -133,6 +142,11 @@ def run_native(contract, sname, values, fn=None):
                 ok = False
             if not ok:
                 out.failed.append((lab, f"raised {type(out.exc).__name__}: {out.exc}"))
+    if frame_pre is not None:
+        out.checked += 1
+        bad = _frame_changes(frame_pre, frame_allowed)
+        if bad:
+            out.failed.append(("frame", "writes outside modifies: " + ", ".join(bad[:6])))
     for lab, (excs, when) in raise_when.items():
         out.checked += 1
         if out.exit == "raise":
@@ -167,3 +181,99 @@ def _reachable(roots, depth=5):
         elif hasattr(o, "__slots__"):
             todo += [(getattr(o, n, None), d + 1) for n in o.__slots__]
     return seen
+
+
+# ---- frame conditions at run time: shallow state of every object reachable from the arguments before the call is compared
+# with its state afterwards (scalars by value, objects by identity); objects created by the call are not in the snapshot.
+def _fp(v):
+    if v is None or isinstance(v, (int, float, str, bool, bytes, complex)):
+        return ("v", type(v).__name__, v)
+    if isinstance(v, tuple) and all(x is None or isinstance(x, (int, float, str, bool)) for x in v):
+        return ("v", "tuple", v)
+    try:
+        import numpy as np
+        if isinstance(v, np.ndarray):
+            return ("a", v.shape, v.tobytes() if v.dtype != object else repr(v.tolist()))
+        if isinstance(v, np.generic):
+            return ("v", "np", v.item())
+    except Exception:
+        pass
+    return ("o", id(v))
+
+
+def _state(o):
+    if isinstance(o, dict):
+        return {("{}", repr(k)): _fp(v) for k, v in o.items()}
+    if isinstance(o, list):
+        return {("[]", i): _fp(v) for i, v in enumerate(o)}
+    if isinstance(o, set):
+        return {("{}", repr(k)): ("v", "in", True) for k in o}
+    st = {}
+    if hasattr(o, "__dict__") and not isinstance(o, type):
+        st.update({(".", k): _fp(v) for k, v in vars(o).items()})
+    for n in getattr(type(o), "__slots__", ()) or ():
+        if hasattr(o, n):
+            st[(".", n)] = _fp(getattr(o, n))
+    return st
+
+
+def _frame_snapshot(roots, depth=7):
+    snap = {}
+    todo = [(r, 0, f"arg{i}") for i, r in enumerate(roots)]
+    while todo:
+        o, d, path = todo.pop()
+        if o is None or isinstance(o, (int, float, str, bool, bytes, type, types.FunctionType, types.ModuleType)) or id(o) in snap or d > depth:
+            continue
+        if type(o).__module__ == "numpy" or isinstance(o, tuple) and not o:
+            continue
+        if isinstance(o, tuple):
+            todo += [(v, d + 1, f"{path}[{i}]") for i, v in enumerate(o)]
+            continue
+        if not (isinstance(o, (dict, list, set)) or hasattr(o, "__dict__") or hasattr(type(o), "__slots__")):
+            continue
+        snap[id(o)] = (o, _state(o), path)
+        if isinstance(o, dict):
+            todo += [(v, d + 1, f"{path}[{k!r}]") for k, v in o.items()]
+        elif isinstance(o, (list, set)):
+            todo += [(v, d + 1, f"{path}[{i}]") for i, v in enumerate(o)]
+        else:
+            if hasattr(o, "__dict__"):
+                todo += [(v, d + 1, f"{path}.{k}") for k, v in vars(o).items()]
+            for n in getattr(type(o), "__slots__", ()) or ():
+                todo.append((getattr(o, n, None), d + 1, f"{path}.{n}"))
+    return snap
+
+
+def _frame_allowed(targets, ns):
+    allowed = set()
+    for t in targets:
+        t = t.strip()
+        if t.endswith("[]") or t.endswith("{}"):
+            allowed.add((id(eval(t[:-2], ns)), t[-2:]))
+        elif t.endswith(".*"):
+            allowed.add((id(eval(t[:-2], ns)), "*"))
+        else:
+            node = ast.parse(t, mode="eval").body
+            if not isinstance(node, ast.Attribute):
+                raise ValueError("modifies target must be an attribute path, x[] or x.*: " + t)
+            base = eval(compile(ast.fix_missing_locations(ast.Expression(body=node.value)), "<frame>", "eval"), ns)
+            allowed.add((id(base), node.attr))
+    return allowed
+
+
+def _frame_changes(snap, allowed):
+    bad = []
+    for oid, (o, before, path) in snap.items():
+        if (oid, "*") in allowed:
+            continue
+        after = _state(o)
+        for key in sorted(set(before) | set(after), key=repr):
+            if before.get(key) == after.get(key):
+                continue
+            kind, name = key
+            if kind == "." and (oid, name) in allowed:
+                continue
+            if kind in ("[]", "{}") and (oid, kind) in allowed:
+                continue
+            bad.append(f"{path}{'.' + str(name) if kind == '.' else '[' + str(name) + ']'}")
+    return bad
